@@ -10,6 +10,7 @@ import Stfs.Model.Sys
 import Stfs.Model.Trig
 import Stfs.Model.Cut
 import Stfs.Spec.RefFs
+import Stfs.Spec.ByteFile
 namespace Stfs.Driver
 open Stfs
 
@@ -79,10 +80,8 @@ def genBytes : Nat → Nat → Bytes
 /-- a handle of the reference filesystem: path, may write, pending buffer -/
 structure RefHandle where
   path : Name
-  writable : Bool
-  append : Bool
-  truncate : Bool
-  buf : Option (Bytes × Nat) := none
+  isDir : Bool := false
+  bf : ByteFile.BF := {}
 deriving Inhabited
 
 structure DState where
@@ -155,6 +154,13 @@ def parseCall (method : String) (args : List String) : Option Call :=
   | "open" => some (.open_ (natArg args 0) (nameArg args 1))
   | "hwrite" => some (.hwrite (natArg args 0) (genBytes (natArg args 1) (natArg args 2)))
   | "hwritestr" => some (.hwriteString (natArg args 0) (genBytes (natArg args 1) (natArg args 2)))
+  | "hread" => some (.hread (natArg args 0) (natArg args 1))
+  | "hreadat" => some (.hreadAt (natArg args 0) (natArg args 1) (intArg args 2))
+  | "hseek" => some (.hseek (natArg args 0) (intArg args 1) (intArg args 2))
+  | "hwriteat" => some (.hwriteAt (natArg args 0) (genBytes (natArg args 1) (natArg args 2)) (intArg args 3))
+  | "htruncate" => some (.htruncate (natArg args 0) (intArg args 1))
+  | "hstat" => some (.hstat (natArg args 0))
+  | "hname" => some (.hname (natArg args 0))
   | "hsync" => some (.hsync (natArg args 0))
   | "hclose" => some (.hclose (natArg args 0))
   | "hreaddir" => some (.hreaddir (natArg args 0) (intArg args 1))
@@ -167,6 +173,8 @@ def encVal : Val → String
   | .infos is => ";".intercalate (is.map encInfo)
   | .bytes b => toString b.length ++ " " ++ toString (polyHash b)
   | .count n => toString n
+  | .read b eof => toString b.length ++ " " ++ toString (polyHash b) ++ " " ++ (if eof then "1" else "0")
+  | .offset i => toString i
   | .badHandle => "badhandle"
 
 /-- run one call on the model; returns the new state and the `res` line -/
@@ -240,32 +248,48 @@ def refCall (s : DState) (method : String) (args : List String) : DState × Stri
     if r == .ok then
       let trunc := hasFlag flag O_TRUNC && writable
       let st'' := if trunc then RefFs.flush st' p [] else st'
-      ({ s with ref := st'', refHandles := (id, { path := p, writable := writable, append := hasFlag flag O_APPEND, truncate := trunc }) :: s.refHandles.filter (·.1 != id) },
+      let isDir := (st''.get p).map (·.isDir) == some true
+      let content := (RefFs.content st'' p).getD []
+      let canRead := acc == 0 || acc == O_RDWR || (acc == O_WRONLY && s.fs.writePermImpliesReadPerm)
+      let bf : ByteFile.BF := { data := content, pos := 0, canRead := canRead, canWrite := writable, append := hasFlag flag O_APPEND }
+      ({ s with ref := st'', refHandles := (id, { path := p, isDir := isDir, bf := bf }) :: s.refHandles.filter (·.1 != id) },
        "refres\tok")
     else (s, "refres\t" ++ encRes r)
-  | "hwrite" | "hwritestr" =>
+  | "hwrite" | "hwritestr" | "hread" | "hreadat" | "hseek" | "hwriteat" | "htruncate" | "hstat" | "hsync" | "hclose" =>
     let id := natArg args 0
     (match (s.refHandles.find? (·.1 == id)).map (·.2) with
      | none => (s, "refres\tbadhandle")
      | some h =>
-       if (st.get h.path).map (·.isDir) == some true then (s, "refres\tisdir") else
-       if !h.writable then (s, "refres\tpermission") else
-       let (buf, cur) := match h.buf with
-         | some bc => bc
-         | none => let b := (RefFs.content st h.path).getD []; (b, if h.append then b.length else 0)
-       let p := genBytes (natArg args 1) (natArg args 2)
-       let h' := { h with buf := some (writeAt buf cur p, cur + p.length) }
-       ({ s with refHandles := (id, h') :: s.refHandles.filter (·.1 != id) }, "refres\tok"))
-  | "hsync" | "hclose" =>
-    let id := natArg args 0
-    (match (s.refHandles.find? (·.1 == id)).map (·.2) with
-     | none => (s, "refres\tbadhandle")
-     | some h =>
-       let st' := match h.buf with
-         | some (b, _) => RefFs.flush st h.path b
-         | none => st
-       let hs := if method == "hclose" then s.refHandles.filter (·.1 != id) else s.refHandles
-       ({ s with ref := st', refHandles := hs }, "refres\tok"))
+       let setH (h' : RefHandle) : DState := { s with refHandles := (id, h') :: s.refHandles.filter (·.1 != id) }
+       let encR : ByteFile.R → String
+         | .ok => "ok" | .permission => "permission" | .invalid => "invalid"
+       if h.isDir && method != "hclose" && method != "hstat" && method != "hseek" then (s, "refres\tisdir") else
+       match method with
+       | "hwrite" | "hwritestr" =>
+         let (bf, r, n) := ByteFile.write h.bf (genBytes (natArg args 1) (natArg args 2))
+         (setH { h with bf := bf }, "refres\t" ++ encR r ++ (if r == .ok then "\t" ++ toString n else ""))
+       | "hwriteat" =>
+         let (bf, r, n) := ByteFile.writeAt h.bf (genBytes (natArg args 1) (natArg args 2)) (intArg args 3)
+         (setH { h with bf := bf }, "refres\t" ++ encR r ++ (if r == .ok then "\t" ++ toString n else ""))
+       | "hread" =>
+         let (bf, r, out) := ByteFile.read h.bf (natArg args 1)
+         (setH { h with bf := bf }, "refres\t" ++ encR r ++ (if r == .ok then "\t" ++ toString out.length ++ " " ++ toString (polyHash out) else ""))
+       | "hreadat" =>
+         let (bf, r, out) := ByteFile.readAt h.bf (natArg args 1) (intArg args 2)
+         (setH { h with bf := bf }, "refres\t" ++ encR r ++ (if r == .ok then "\t" ++ toString out.length ++ " " ++ toString (polyHash out) else ""))
+       | "hseek" =>
+         if h.isDir then (s, "refres\tok\t0") else
+         let (bf, r, o) := ByteFile.seek h.bf (intArg args 1) (intArg args 2)
+         (setH { h with bf := bf }, "refres\t" ++ encR r ++ (if r == .ok then "\t" ++ toString o else ""))
+       | "htruncate" =>
+         let (bf, r) := ByteFile.truncate h.bf (intArg args 1)
+         (setH { h with bf := bf }, "refres\t" ++ encR r)
+       | "hstat" => (s, "refres\tok\tsize=" ++ toString h.bf.data.length)
+       | _ =>
+         -- hsync / hclose: flush what was written
+         let st' := if h.bf.dirty then RefFs.flush st h.path h.bf.data else st
+         let hs := if method == "hclose" then s.refHandles.filter (·.1 != id) else (id, { h with bf := { h.bf with dirty := false } }) :: s.refHandles.filter (·.1 != id)
+         ({ s with ref := st', refHandles := hs }, "refres\tok"))
   | _ => (s, "refres\t-")
 
 def step (s : DState) (line : String) : DState × List String :=
@@ -347,6 +371,29 @@ def step (s : DState) (line : String) : DState × List String :=
     let (s', res) := runCall s method args
     let trigs := trigs ++ (Trig.evalPost s'.fs { w := s'.w, handles := s'.handles }).filter (fun t => !trigs.contains t)
     let (s', refres) := refCall s' method args
+    -- byte-level handle calls: where the model's answer differs from the byte-array reference the
+    -- deviation is a known one (finding F23); it stays known only while the implementation agrees
+    -- with the model
+    let payload (l : String) (pre : String) : List String := ((l.drop pre.length).toString.splitOn "\t").flatMap (·.splitOn " ")
+    let agree : Bool :=
+      if !["hread", "hreadat", "hseek", "hwrite", "hwritestr", "hwriteat", "htruncate"].contains method then true else
+      let a := payload res "res\t"
+      let b := payload refres "refres\t"
+      if method == "hread" || method == "hreadat" then a.take 3 == b.take 3 else a == b
+    -- … and the handle's state (content and cursor) against the reference's
+    let stateAgree : Bool :=
+      match (parseCall method args).bind Call.handleId with
+      | none => true
+      | some id =>
+        match (s'.handles.find? (·.1 == id)).map (·.2), (s'.refHandles.find? (·.1 == id)).map (·.2) with
+        | some mh, some rh =>
+          if rh.isDir then true else
+          (match mh.wbuf, mh.reader with
+           | some (buf, cur), _ => buf == rh.bf.data && cur == rh.bf.pos
+           | none, some (_, pos) => pos == rh.bf.pos
+           | none, none => rh.bf.pos == 0 || !rh.bf.dirty)
+        | _, _ => true
+    let trigs := if agree && stateAgree then trigs else trigs ++ ["handleDeviates"]
     let s' := { s' with env := {} }
     (s', ["call\t" ++ method ++ "\t" ++ "\t".intercalate args, res] ++ observe before s' ++
       (if trigs.isEmpty then [] else ["trig\t" ++ "\t".intercalate trigs]) ++ [refres] ++ encTree s'.ref ++ ["end"])
